@@ -163,6 +163,24 @@ func ConfigGrid(thorough bool) []ConfigCase {
 			}
 		}
 	}
+	// limits in relation to the core size: every read/write limit up to 4M+2
+	// (the configuration check accepts limits above the core size; the nop256
+	// preset has them), and the presets themselves
+	for mode := 0; mode < 3; mode++ {
+		for _, c := range []uint64{3, 4, 5, 8} {
+			for r := uint64(1); r <= 4*c+2; r++ {
+				for w := uint64(1); w <= 4*c+2; w++ {
+					if !thorough && !(r == w || r == c || w == c || r == 1 || w == 1) {
+						continue
+					}
+					out = append(out, ConfigCase{mode, c, 3, 40, r, w, 2, 0})
+				}
+			}
+		}
+	}
+	for _, p := range []g.SimulatorConfig{g.ConfigKOTH88, g.ConfigICWS88, g.ConfigNOP94, g.ConfigNopTiny, g.ConfigNop256, g.ConfigNopNano} {
+		out = append(out, ConfigCase{int(p.Mode), uint64(p.CoreSize), uint64(p.Processes), uint64(p.Cycles), uint64(p.ReadLimit), uint64(p.WriteLimit), uint64(p.Length), uint64(p.Distance)})
+	}
 	return out
 }
 
